@@ -4,6 +4,7 @@ import (
 	"go/constant"
 	"go/token"
 	"go/types"
+	"strings"
 
 	"golang.org/x/tools/go/ssa"
 )
@@ -474,7 +475,15 @@ func FuncIs(f *ssa.Function, pkgpath, name string) bool {
 	if pk.Path() != pkgpath && pk.Path() != ModulePath+"/"+pkgpath {
 		return false
 	}
-	return f.RelString(pk) == name
+	return normFn(f.RelString(pk)) == normFn(name)
+}
+
+// normFn strips the parentheses go/ssa puts around receivers so that
+// "(*T).M", "*T.M", "(T).M" and "T.M" compare by receiver form and name.
+func normFn(s string) string {
+	s = strings.ReplaceAll(s, "(", "")
+	s = strings.ReplaceAll(s, ")", "")
+	return s
 }
 
 // InvokeIs reports whether the call is an interface method invocation of the
